@@ -120,13 +120,15 @@ Definition convs_ok (cm : list (str * str * option str)) : bool :=
   forallb (fun e => match cinst (snd (fst e)) (snd e) with COk _ => true | _ => false end) cm.
 
 (* one node: its converters instantiate; field names are distinct; a field that swallows
-   the rest of the path only on a childless single-field node *)
+   the rest of the path only on a childless single-field node; field names can be written
+   between quotes in the generated source *)
 Definition node_ok (n : node) : bool :=
   let pcs := parse_seg (raw n) in
   convs_ok (convmap pcs)
   && nodupb (map f_name (fields pcs))
   && (negb (has_cmp cmulti pcs)
-      || (is_simple pcs && match children n with [] => true | _ => false end)).
+      || (is_simple pcs && match children n with [] => true | _ => false end))
+  && forallb name_plain (map f_name (fields pcs)).
 
 Fixpoint wf_n (n : node) : bool :=
   match n with
